@@ -17,7 +17,8 @@ RULE = ('Hypothesis resampling problems described by parameters (the arrays are 
         'some exposure); value rule (single spectrum: non-zero ivar == linear interpolation of the input ivar); metamorphic: same grid '
         'reproduces smooth flux, constants stay constant, (c flux, ivar/c^2) scaling; feature centroid lands at L - log10(1+z).  '
         'Non-trivial = interior zero-run, output grid extending beyond the data, >= 20 output pixels with ivar > 0.')
-ASSUMPTIONS = ['preprocess_spectra derives its own output grid only from a shared 1-D loglam (2-D loglam is always accompanied by newloglam, as in template_input)',
+ASSUMPTIONS = ['scale factors c keep ivar/c^2 well above float32 eps (combine1fiber treats |smoothed ivar| < 1.2e-7 as a bad region, an absolute threshold inherited from IDL): c in 1e-17 .. 1e3 for ivar ~ 400',
+               'preprocess_spectra derives its own output grid only from a shared 1-D loglam (2-D loglam is always accompanied by newloglam, as in template_input)',
                'the harness installs an SPPIXMASK table in the maskbits cache (the official file cannot be downloaded offline)',
                'an output wavelength within 1e-6 pixel of an input pixel is a hit on that pixel; a hit on a good pixel whose two neighbours are bad may be zero or not',
                'for stacked exposures the zero rule is applied per exposure (an output pixel may be non-zero if some exposure brackets it with two good pixels); the value rule is asserted for single spectra only',
@@ -58,7 +59,7 @@ def case_strategy(draw):
                 og=og, frac=draw(st.sampled_from([0.5, 0.25, 0.01, 0.99, 0.73])), left=draw(st.integers(1, 40)), right=draw(st.integers(1, 40)),
                 aesthetics=draw(st.sampled_from(['traditional', 'noconst', 'mean', 'nothing', 'damp'])),
                 with_ivar=draw(st.sampled_from([True, True, True, False])) if nexp == 1 else True,
-                ivar_kind=draw(st.sampled_from(['smooth', 'const'])), scale=draw(st.sampled_from([2.0, 0.5, 1000.0, 1e-3])),
+                ivar_kind=draw(st.sampled_from(['smooth', 'const'])), scale=draw(st.sampled_from([2.0, 1e-17, 0.5, 1000.0, 1e-3, 1e-9])),
                 seed=draw(st.integers(0, 10 ** 6)))
 
 
@@ -283,7 +284,7 @@ def prep_case(draw):
     loglam2d = draw(st.booleans())
     # the grid can only be derived from a shared 1-D loglam (dloglam = loglam[1] - loglam[0]); in-repo callers always pass newloglam with 2-D loglam
     given = True if loglam2d else draw(st.booleans())
-    return dict(nobj=nobj, n=n, c0=c0, c1=c1, z=[draw(st.sampled_from([0.1, 0.05, 0.0, 0.3, 0.17, 0.01])) for _ in range(nobj)],
+    return dict(nobj=nobj, n=n, c0=c0, c1=c1, z=[draw(st.sampled_from([0.1, 0.05, 0.0, 0.3, 0.17, 0.01, -0.0012, -0.01])) for _ in range(nobj)],
                 feature=[draw(st.integers(60, n - 60)) + 0.5 * draw(uf) for _ in range(nobj)], width=draw(st.sampled_from([2.0, 3.0])),
                 loglam2d=loglam2d, given_grid=given, aesthetics=draw(st.sampled_from(['mean', 'traditional'])))
 
